@@ -71,7 +71,7 @@ type shEnum struct {
 	Name   string `json:"name"`
 	Parent int    `json:"parent"`
 	Unspec bool   `json:"unspec"`
-	Opt    string `json:"opt"` // none | no_default | info_fields | value_info
+	Opt    string `json:"opt"` // none | no_default | info_fields | value_info | value_prefixed
 }
 
 type shCase struct {
@@ -689,6 +689,10 @@ func shBuild(c *shCase) (*shBuilt, error) {
 			first = prefix + "NONE"
 		}
 		vals := []string{first, prefix + "A", prefix + "B"}
+		if e.Opt == "value_prefixed" {
+			// a value whose short name starts with the enum's prefix again (E0_E0_X)
+			vals = append(vals, prefix+prefix+"X")
+		}
 		for n, v := range vals {
 			vp := &descriptorpb.EnumValueDescriptorProto{Name: proto.String(v), Number: proto.Int32(int32(n))}
 			line := fmt.Sprintf("%s = %d;", v, n)
